@@ -527,6 +527,7 @@ func main() {
 	pendingRefFacts(&b)  // F32 facts (jobctl_pending.go)
 	statusWriteFacts(&b) // F31 fact (jobctl_writes.go)
 	finishTimeFacts(&b)  // F30 fact (jobctl_finish.go)
+	hashIndexFacts(&b)   // C14 fact (hash_facts.go)
 	jcstatusFacts(&b)    // C15 facts (jcstatus.go)
 	taskfnFacts(&b)      // C08 C10 C11 C12 facts (taskfn_facts.go)
 	retryFacts(&b)       // C20 facts (retry_facts.go)
